@@ -9,8 +9,6 @@ package sched
 
 import (
 	"bytes"
-	"crypto/sha256"
-	"encoding/binary"
 	"fmt"
 	"os"
 	"reflect"
@@ -20,6 +18,8 @@ import (
 	"sync"
 	"sync/atomic"
 	"testing/synctest"
+
+	"berty.tech/weshnet/v2/pkg/verifsimorder"
 )
 
 type opKind int
@@ -746,90 +746,8 @@ func Bubble(t TestingT, f func()) (panicked string) {
 	return ""
 }
 
-// ---------------------------------------------------------------------------------------------
-// Map iteration order. The Go runtime starts every map iteration at a random offset that cannot
-// be seeded. Range statements over maps in files that go through the instrumenter are rewritten to
-// iterate over SortedKeys: the order is a pure function of the per-run salt and the key bytes,
-// so it is repeatable for one seed and differs between seeds (the order is one more seeded choice).
-
-var mapSalt atomic.Uint64
-
-// UncontrolledRanges counts iterations whose keys have no stable byte representation (pointers).
-var UncontrolledRanges atomic.Int64
-
-// SetMapSalt sets the per-run salt of map iteration orders (0: plain order of the key bytes).
-func SetMapSalt(x uint64) { mapSalt.Store(x) }
-
-func keyBytes(k any) ([]byte, bool) {
-	switch v := k.(type) {
-	case string:
-		return []byte(v), true
-	case interface{ Raw() ([]byte, error) }:
-		if b, err := v.Raw(); err == nil {
-			return b, true
-		}
-	}
-	rv := reflect.ValueOf(k)
-	switch rv.Kind() {
-	case reflect.Int, reflect.Int8, reflect.Int16, reflect.Int32, reflect.Int64:
-		var b [8]byte
-		binary.BigEndian.PutUint64(b[:], uint64(rv.Int()))
-		return b[:], true
-	case reflect.Uint, reflect.Uint8, reflect.Uint16, reflect.Uint32, reflect.Uint64, reflect.Uintptr:
-		var b [8]byte
-		binary.BigEndian.PutUint64(b[:], rv.Uint())
-		return b[:], true
-	case reflect.Bool:
-		if rv.Bool() {
-			return []byte{1}, true
-		}
-		return []byte{0}, true
-	case reflect.String:
-		return []byte(rv.String()), true
-	case reflect.Array:
-		if rv.Type().Elem().Kind() == reflect.Uint8 {
-			b := make([]byte, rv.Len())
-			for i := range b {
-				b[i] = byte(rv.Index(i).Uint())
-			}
-			return b, true
-		}
-	case reflect.Ptr, reflect.Chan, reflect.UnsafePointer, reflect.Func:
-		return []byte(fmt.Sprintf("%p", k)), false
-	}
-	return []byte(fmt.Sprintf("%#v", k)), rv.Kind() != reflect.Interface
-}
+// SetMapSalt and SortedKeys: see package verifsimorder (seeded iteration order of maps).
+func SetMapSalt(x uint64) { verifsimorder.SetMapSalt(x) }
 
 // SortedKeys returns the keys of m in the run's seeded order.
-func SortedKeys[M ~map[K]V, K comparable, V any](m M) []K {
-	type kk struct {
-		k K
-		h [32]byte
-	}
-	salt := mapSalt.Load()
-	var sb [8]byte
-	binary.BigEndian.PutUint64(sb[:], salt)
-	ks := make([]kk, 0, len(m))
-	for k := range m {
-		b, ok := keyBytes(any(k))
-		if !ok {
-			UncontrolledRanges.Add(1)
-		}
-		var h [32]byte
-		if salt == 0 {
-			copy(h[:], b) // plain order of the (first 32) key bytes
-			if len(b) > 32 {
-				h = sha256.Sum256(b)
-			}
-		} else {
-			h = sha256.Sum256(append(append([]byte(nil), sb[:]...), b...))
-		}
-		ks = append(ks, kk{k, h})
-	}
-	sort.Slice(ks, func(i, j int) bool { return bytes.Compare(ks[i].h[:], ks[j].h[:]) < 0 })
-	out := make([]K, len(ks))
-	for i, e := range ks {
-		out[i] = e.k
-	}
-	return out
-}
+func SortedKeys[M ~map[K]V, K comparable, V any](m M) []K { return verifsimorder.SortedKeys(m) }
